@@ -82,6 +82,11 @@ func (m *mockRepo) PushSignature(_ context.Context, mediaType string, blob []byt
 		return ocispec.Descriptor{}, ocispec.Descriptor{}, err
 	}
 	md := ocispec.Descriptor{MediaType: mtImage, Digest: digest.FromBytes(mb), Size: int64(len(mb))}
+	for _, s := range m.sigs {
+		if s.Manifest.Digest == md.Digest {
+			return blobDesc, md, nil // content-addressed like a registry: the identical manifest is there already
+		}
+	}
 	m.sigs = append(m.sigs, mockSig{Manifest: md, ManifestJSON: mb, Blob: rec.Blob, BlobDesc: blobDesc, Subject: sub})
 	return blobDesc, md, nil
 }
